@@ -183,3 +183,45 @@ C11_SCHEMAS = {
         'each v in V(g) | if X == ty(v) | each w in N(v) : toggle_edge_type(v, w)',
     ],
 }
+
+
+# C05 — structural parts of the stabiliser decompositions (the Z[omega] coefficients of the replace_* terms are NOT referenced here):
+# pi-normalisation of a cat = pi-copy through verts[1] (its other neighbours get pi, the centre goes to 0, scalar e(phase)); odd cats are padded with an
+# identity pair; spider cutting: sqrt2^-k, with phase: e(alpha) and pi on every neighbour; reverse pivot: sqrt2^(-(x-1)(y-1)).
+C05_SCHEMAS = {
+    'decompose::apply_cat_decomp': [
+        'if (3 == |verts| - 1 or 5 == |verts| - 1) : add_edge_with_type(fresh#1, fresh#2, H)',
+        'if (3 == |verts| - 1 or 5 == |verts| - 1) : add_edge_with_type(fresh#2, verts[0], H)',
+        'if (3 == |verts| - 1 or 5 == |verts| - 1) : fresh#1 = add_vertex(Z)',
+        'if (3 == |verts| - 1 or 5 == |verts| - 1) : fresh#2 = add_vertex(Z)',
+        'if 6 == [if (3 == |verts| - 1 or 5 == |verts| - 1)] + |verts| - 1 : call replace_cat6_0(verts)',
+        'if 6 == [if (3 == |verts| - 1 or 5 == |verts| - 1)] + |verts| - 1 : call replace_cat6_1(verts)',
+        'if 6 == [if (3 == |verts| - 1 or 5 == |verts| - 1)] + |verts| - 1 : call replace_cat6_2(verts)',
+        'if not 6 == [if (3 == |verts| - 1 or 5 == |verts| - 1)] + |verts| - 1 | if 4 == [if (3 == |verts| - 1 or 5 == |verts| - 1)] + |verts| - 1 : call replace_cat4_0(verts)',
+        'if not 6 == [if (3 == |verts| - 1 or 5 == |verts| - 1)] + |verts| - 1 | if 4 == [if (3 == |verts| - 1 or 5 == |verts| - 1)] + |verts| - 1 : call replace_cat4_1(verts)',
+        'if not 6 == [if (3 == |verts| - 1 or 5 == |verts| - 1)] + |verts| - 1 | if not 4 == [if (3 == |verts| - 1 or 5 == |verts| - 1)] + |verts| - 1 : panic',
+        'if phase(verts[0]).is_one : scalar *= e(phase(verts[1]))',
+        'if phase(verts[0]).is_one : set_phase(verts[0], 0)',
+        'if phase(verts[0]).is_one : set_phase(verts[1], -phase(verts[1]))',
+        'if phase(verts[0]).is_one | each v in filter[verts[0] != x] N(verts[1]) : add_to_phase(v, 1)',
+    ],
+    'decompose::cut_spider': [
+        'if with_phase : scalar *= e(phase(verts[0]))',
+        'if with_phase | each n in N(verts[0]) : add_to_phase(n, 1)',
+        'remove_vertex(verts[0])',
+        'scalar *= sqrt2^(-|N(verts[0])|)',
+    ],
+    'decompose::reverse_pivot': [
+        'add_edge_smart(fresh#1, fresh#2, H)',
+        'each n0 in vs0 : add_edge_smart(fresh#1, n0, H)',
+        'each n0 in vs0 | each n1 in vs1 : remove_edge(n0, n1)',
+        'each n1 in vs1 : add_edge_smart(fresh#2, n1, H)',
+        'fresh#1 = add_vertex(Z)',
+        'fresh#2 = add_vertex(Z)',
+        'scalar *= sqrt2^(-|vs0|*|vs1| + |vs0| + |vs1| - 1)',
+    ],
+    'decompose::apply_spider_cutting_decomp': [
+        'call cut_spider(verts, false)',
+        'call cut_spider(verts, true)',
+    ],
+}
